@@ -25,7 +25,7 @@ class C15(PropBase):
 
     def generate(self, seed, tier, idx):
         rng = Rng(seed)
-        proj = gen.gen_project(rng, n_units=rng.randint(1, 7), inline=0.3, weird_names=0.04, big=0.03, same_basename=0.08, max_atoms=4, utf8=0.15)
+        proj = gen.gen_project(rng, corpus=0.2, n_units=rng.randint(1, 7), inline=0.3, weird_names=0.04, big=0.03, same_basename=0.08, max_atoms=4, utf8=0.15)
         opts = {"--enable": rng.choice(["--enable=style,warning,performance,portability", "--enable=all", "--enable=style,information",
                                         "--enable=warning,information", "--enable=information", ""])}
         if not opts["--enable"]:
